@@ -4,7 +4,7 @@ import "github.com/kercylan98/minotaur/toolkit"
 
 var restartStrategy = toolkit.NewInertiaSingleton[Strategy](func() Strategy {
 	return FunctionalStrategy(func(record *AccidentRecord) {
-		record.Supervisor.Stop(record.Victim)
+		record.Supervisor.Restart(record.Victim)
 	})
 })
 
